@@ -45,7 +45,7 @@ REQUIRED = ['late_event_before_disconnect_was_dispatched', 'poller_Select', 'pol
             'peer_close_while_server_writing', 'server_buffer_filled', 'server_close_event', 'server_close_while_buffered', 'late_write', 'late_close',
             'concurrent_ge3', 'concurrent_6', 'read_split_over_events', 'strict_equality_checked', 'prefix_checked', 'residue_scanned',
             'weakref_checked', 'residue_deciders_agree', 'fd_census_taken', 'connects_before_first_tick', 'client_peer_close', 'client_peer_abort',
-            'client_local_close', 'client_reconnect', 'client_close_while_buffered']
+            'client_local_close', 'client_reconnect', 'client_close_while_buffered', 'client_write_after_close']
 REQUIRED_OBLIGATIONS = ['ONE_CONNECT', 'READS_IN_ORDER', 'ONE_DISCONNECT', 'NOTHING_AFTER_DISCONNECT', 'NO_RESIDUE', 'SOCKET_RELEASED', 'FD_CENSUS',
                         'CLIENT_ONE_DISCONNECTED_PER_CONNECTED']
 WORKER_TIMEOUT = {'quick': 300, 'thorough': 1500}
@@ -69,6 +69,7 @@ KEY_EPOLL_MAP = 'epoll.discard-keeps-map-entry'
 KEY_LATE = 'server.late-write-after-disconnect'
 KEY_WRITE_ERR = 'server.failed-write-recreates-buffer-entry'
 KEY_CLOSEQ = 'server.closeq-entry-survives-error-close'
+KEY_CLIENT_LATE = 'client.write-after-close-defers-close-forever'
 
 
 class Inconclusive(Exception):
@@ -104,6 +105,8 @@ class Conn:
 
 
 class World:
+    giveups = 0     # cases of this process in which a bounded wait for the kernel expired
+
     def __init__(self, case, skip_late=False, reuse_fds=False, skip_swrite=False, name_holders=True):
         from circuits import BaseComponent, handler
         from circuits.core import pollers
@@ -213,11 +216,13 @@ class World:
             return []
         return [(fd, ev) for fd, ev in p.poll(timeout_ms) if not ev & select.POLLNVAL]
 
-    def advance(self, cond, hard=False):
+    def advance(self, cond, hard=False, rounds=None):
         """Step until ``cond()``.  soft: give up as soon as the kernel shows nothing pending; hard: keep
         waiting for the kernel (bounded wall-clock, only ever spent when the condition stays false), the
         caller turns a false result into a verdict on the final automaton state."""
-        rounds = 75 if hard and not self.gave_up else 6
+        if rounds is None:
+            rounds = (50 if World.giveups < 5 else 10) if hard and not self.gave_up else 6
+        last = None
         for _ in range(rounds):
             if not self.quiet_step():
                 self.unsettled = True
@@ -226,8 +231,12 @@ class World:
             pend = self.kernel_pending(20 if hard else 0)
             if not pend and not hard:
                 return False
-        if hard:
-            self.gave_up = True
+            if hard and pend == last:
+                select.select([], [], [], 0.02)      # a permanently readable descriptor (EOF) must not turn the wait into a spin
+            last = pend
+        if hard and not cond():
+            self.gave_up = True      # only ever happens on a tree that already failed an obligation: do not pay the wait again
+            World.giveups += 1
         return cond()
 
 
@@ -472,6 +481,18 @@ class ServerWorld(World):
                 self.do(['close', p, 'nw'])
         self.advance(lambda: len(self.conns) >= len(self.order), hard=True)
         all_done = self.advance(lambda: all(self.disconnected(c) for c in self.conns), hard=True)
+        if not all_done and not World.giveups > 5:
+            # a peer that closed while the server still holds data for it answers with a reset only when the server's kernel
+            # transmits again (zero-window probe / retransmission timer): that end is the kernel's to signal, wait for it
+            waiting = [c for c in self.conns if not self.disconnected(c) and c.strong.fileno() >= 0 and self.poller.isWriting(c.strong)]
+            if waiting:
+                self.marks.add('waited_for_kernel_timer')
+                all_done = self.advance(lambda: all(self.disconnected(c) for c in self.conns), hard=True, rounds=150)
+                for c in waiting:
+                    if not self.disconnected(c) and self.poller.isWriting(c.strong):
+                        ev = [e for fd, e in self.kernel_pending(0) if fd == c.strong.fileno()]
+                        if not ev or not ev[0] & (select.POLLERR | select.POLLHUP):
+                            raise Inconclusive('the kernel has not reset a connection whose peer is gone while the server waits to write to it')
         for op in self.case.get('late', []):
             self.do(op)
         self.advance(lambda: False)
@@ -577,6 +598,8 @@ class ServerWorld(World):
                 tag = 'epoll-map'
             elif f[1:] == ('_buffers', 'key') and wrote and any(n == 'error' for n, _ in c.events):
                 tag = 'write-failed'
+            elif f[1:] == ('_closeq', 'element') and wrote and any(n == 'error' for n, _ in c.events):
+                tag = 'closeq'
             else:
                 tag = 'other'
             out.setdefault(tag, []).append(list(f))
@@ -687,6 +710,7 @@ class ClientWorld(World):
         self.h = {}            # client index -> harness-side socket of the current connection
         self.cwritten = {}
         self.unsettled = False
+        self.late_client_writes = set()
         for i in range(case['clients']):
             ch = 'c%d' % i
             self.client_log[ch] = []
@@ -712,26 +736,45 @@ class ClientWorld(World):
         return sum(1 for n, _ in self.client_log['c%d' % i] if n == name)
 
     def wait(self, cond, hard=True):
-        for r in range(250 if hard else 3):
+        rounds = (50 if World.giveups < 5 else 10) if hard and not self.gave_up else 3
+        for r in range(rounds):
             if not self.quiet_step():
                 self.unsettled = True
             if cond():
                 return True
             if hard:
                 select.select([], [], [], 0.02)   # kernel delivery only; expiry is never a verdict by itself
+        if hard and not cond():
+            self.gave_up = True
+            World.giveups += 1
         return cond()
 
-    def fire(self, ev, i):
-        ev._vharness = ('client', None)
+    def fire(self, ev, i, kind='client'):
+        ev._vharness = (kind, i)
         self.root.fire(ev, 'c%d' % i)
+
+    def harness_event(self, event, kind, i):
+        """A harness event is being dispatched to client i.  A write is *late* iff the client's socket is closed at
+        that moment (it raced with a close / disconnect)."""
+        if kind == 'cwrite':
+            s = _socket_attr(self.clients[i])
+            if s is None or s.fileno() < 0:
+                self.marks.add('client_write_after_close')
+                if self.skip_late:
+                    event.stop()
+                else:
+                    self.late_client_writes.add(i)
 
     def do(self, op):
         from circuits.net import events as nev
         kind, i = op[0], op[1]
         hs = self.h.get(i)
         if kind == 'cconnect':
-            if self.state(i) != 'idle' or hs is not None:
+            if self.state(i) != 'idle':
                 return
+            if hs is not None:          # the harness end of the previous, already ended connection
+                hs.close()
+                self.h[i] = None
             n0 = self.count(i, 'connected')
             self.fire(nev.connect(self.addr[0], self.addr[1]), i)
             if not self.wait(lambda: self.count(i, 'connected') > n0):
@@ -791,7 +834,7 @@ class ClientWorld(World):
         elif kind == 'cwrite':
             if self.state(i) != 'connected':
                 return
-            self.fire(nev.write(b'C' * op[2]), i)
+            self.fire(nev.write(b'C' * op[2]), i, 'cwrite')
             self.cwritten[i] += op[2]
             self.wait(lambda: False, hard=False)
         elif kind == 'hdrain':
@@ -839,7 +882,9 @@ class ClientWorld(World):
                     st = 'idle'
             if st == 'connected':
                 counts['CLIENT_ONE_DISCONNECTED_PER_CONNECTED'] += 1
-                problems.append(('CLIENT_ONE_DISCONNECTED_PER_CONNECTED', 'missing-disconnected', {'client': i, 'events': _short_events(log), 'settled': done}))
+                tag = 'client-late-write' if i in self.late_client_writes and self.case['poller'] == 'Select' else 'missing-disconnected'
+                problems.append(('CLIENT_ONE_DISCONNECTED_PER_CONNECTED', tag, {'client': i, 'events': _short_events(log), 'settled': done,
+                                                                                'writes_dispatched_while_its_socket_was_closed': i in self.late_client_writes}))
         return problems, counts
 
     def teardown(self):
@@ -908,6 +953,8 @@ def corpus_histories():
     hs.append(('full-buffer-server-close-then-peer-abort', {'small': True}, [[C, 0], [W, 0, 400000], [Z, 0], [S, 0, 10], [A, 0]], []))
     hs.append(('full-buffer-server-close-then-drain', {'small': True}, [[C, 0], [W, 0, 300000], [Z, 0], [D, 0], [D, 0], [D, 0], [D, 0], [X, 0]], []))
     hs.append(('full-buffer-half-close', {'small': True}, [[C, 0], [W, 0, 400000], [S, 0, 10], [H, 0], [D, 0], [D, 0], [D, 0], [X, 0]], []))
+    hs.append(('half-close-while-buffered-then-peer-gone', {'small': True}, [[C, 0], [S, 0, 20000], [H, 0, 'nw'], [W, 0, 400000], [A, 0]], []))
+    hs.append(('late-write-before-disconnect-is-dispatched', {}, [[C, 0], [S, 0, 5000], [Z, 0, 'nw'], ['step', 1], [W, 0, 1]], []))
     hs.append(('late-write', {}, [[C, 0], [S, 0, 10], [X, 0], [W, 0, 30]], []))
     hs.append(('late-close', {}, [[C, 0], [S, 0, 10], [X, 0], [Z, 0]], []))
     hs.append(('late-write-then-close', {}, [[C, 0], [C, 1], [S, 0, 10], [A, 0], [S, 1, 5]], [[W, 0, 30], [Z, 0], [W, 1, 3]]))
@@ -940,6 +987,7 @@ def corpus():
         ('c-reconnect', 2, [[CC, 0], [CC, 1], [HS, 0, 5], [HC, 0], [CC, 0], [HS, 0, 7], [CX, 0], [CC, 0], [HA, 0], [HA, 1]]),
         ('c-close-while-buffered', 1, [[CC, 0], [CW, 0, 8000000], [CX, 0], [HD, 0], [HD, 0], [HD, 0], [HD, 0], [HC, 0]]),
         ('c-close-while-buffered-peer-abort', 1, [[CC, 0], [CW, 0, 8000000], [CX, 0], [HA, 0]]),
+        ('c-write-races-with-close-then-reconnect', 1, [[CC, 0], [CX, 0, 'nw'], [CW, 0, 1000], [CC, 0], [HS, 0, 5], [CX, 0], [HC, 0]]),
         ('c-write-then-peer-close', 1, [[CC, 0], [CW, 0, 100], [HC, 0, 'nw'], [CW, 0, 100], [CW, 0, 100]]),
     ]
     for name, n, ops in chs:
@@ -1049,8 +1097,9 @@ def plan(tier, seed):
 
 
 # ------------------------------------------------------------------------------------------------
-KNOWN_BY_TAG = {'epoll-map': KEY_EPOLL_MAP, 'late-op': KEY_LATE, 'write-failed': KEY_WRITE_ERR}
-NEUTRALISER = {'epoll-map': 'reuse_fds', 'late-op': 'skip_late', 'write-failed': 'skip_swrite'}
+KNOWN_BY_TAG = {'epoll-map': KEY_EPOLL_MAP, 'late-op': KEY_LATE, 'write-failed': KEY_WRITE_ERR, 'closeq': KEY_CLOSEQ, 'client-late-write': KEY_CLIENT_LATE}
+NEUTRALISER = {'epoll-map': 'reuse_fds', 'late-op': 'skip_late', 'write-failed': 'skip_swrite', 'closeq': 'skip_swrite', 'client-late-write': 'skip_late'}
+ATTRIBUTABLE = ('NO_RESIDUE', 'SOCKET_RELEASED', 'CLIENT_ONE_DISCONNECTED_PER_CONNECTED')
 
 
 def classes_of(problems):
@@ -1067,7 +1116,7 @@ def explained(case, kw, must_be_gone):
         return False
     parts = set()
     for clause, tag in classes_of(problems):
-        if clause not in ('NO_RESIDUE', 'SOCKET_RELEASED'):
+        if clause not in ATTRIBUTABLE:
             return False
         parts.update(tag.split('+'))
     if parts & set(must_be_gone) or any(p not in NEUTRALISER for p in parts):
@@ -1107,7 +1156,7 @@ def evaluate_case(b, case):
     memo = {}
     for (clause, tag), detail in groups.items():
         known = []
-        if clause in ('NO_RESIDUE', 'SOCKET_RELEASED'):
+        if clause in ATTRIBUTABLE:
             for part in tag.split('+'):
                 if part in KNOWN_BY_TAG:
                     known.append((KNOWN_BY_TAG[part], _twin(case, part, memo)))
